@@ -24,7 +24,7 @@ TOL = 1e-12
 
 def make_atoms(n):
     pos = np.array([[0.9 + 1.1 * i, 1.3 + 0.7 * ((2 * i) % 3), 0.8 + 0.45 * i * i] for i in range(n)])
-    syms = ["Cu", "H", "O", "Ar"][:n]
+    syms = ["Cu", "H", "O", "Ar", "N"][:n]
     return Atoms(syms, positions=pos, cell=[[7, 0, 0], [0.8, 6.5, 0], [0.3, 0.6, 7.2]], pbc=True)
 
 
